@@ -58,6 +58,7 @@ class VecEv:
         self.attr = attr or {}        # 'self.L0' -> Rat / V / Mx
         self.scenario = scenario or (lambda test: None)
         self.returned = None
+        self.opaque_calls = {}
 
     # ---------------------------------------------------------------- values
     def ev(self, e):
@@ -139,6 +140,20 @@ class VecEv:
                 isinstance(e.args[0], (ast.List, ast.Tuple)) and \
                 len(e.args[0].elts) == 3:
             return V(tuple(self.ev(x) for x in e.args[0].elts))
+        if fn == 'np.dot' and len(e.args) == 2:
+            a, b = self.ev(e.args[0]), self.ev(e.args[1])
+            if isinstance(a, V) and isinstance(b, V):
+                return dot(a, b)
+        if fn == 'np.sqrt' and len(e.args) == 1:
+            a = self.ev(e.args[0])
+            if isinstance(a, Rat):
+                return self.sym.sqrt(a, label=unparse(e.args[0]))
+        if fn == 'np.linalg.norm' and len(e.args) == 1 and not kw:
+            v = self.ev(e.args[0])
+            if isinstance(v, V):
+                return self.sym.sqrt(dot(v, v), label=unparse(e.args[0]))
+        if fn in self.opaque_calls:
+            return self.opaque_calls[fn](e, self)
         if fn == 'np.cross' and len(e.args) == 2:
             a, b = self.ev(e.args[0]), self.ev(e.args[1])
             if isinstance(a, V) and isinstance(b, V):
@@ -207,6 +222,12 @@ class VecEv:
             if isinstance(t, ast.Name):
                 self.env[t.id] = v
                 return
+            if isinstance(t, ast.Tuple) and isinstance(v, tuple) and \
+                    len(v) == len(t.elts) and all(
+                        isinstance(x, ast.Name) for x in t.elts):
+                for x, y in zip(t.elts, v):
+                    self.env[x.id] = y
+                return
             if isinstance(t, ast.Attribute):
                 self.attr[unparse(t)] = v
                 return
@@ -225,6 +246,12 @@ class VecEv:
             if d is None:
                 raise Inconclusive(f'undecided branch {unparse(s.test)[:50]}')
             self.run(s.body if d else s.orelse)
+            return
+        if isinstance(s, ast.While) and unparse(s.test) == 'True':
+            self.run(s.body)         # one pass: the body ends in return
+            return
+        if isinstance(s, ast.Continue):
+            self.returned = ('continue',)
             return
         if isinstance(s, ast.Return):
             self.returned = self.evx(s.value)
